@@ -555,6 +555,12 @@ type dgVector struct {
 	LenF int    `json:"lenf"`
 	Pkt  *Pkt   `json:"pkt"`
 	CB   []int  `json:"cb"`
+	// Alt: what the layout yields two octets early (WrongOffsetParse of Codec.tla); only used to
+	// name the mechanism of a finding in class long-form-small-length.
+	Alt struct {
+		OK  bool `json:"ok"`
+		Pkt Pkt  `json:"pkt"`
+	} `json:"alt"`
 }
 
 func typeAt(d []int) int {
@@ -632,6 +638,8 @@ func runDgVec(t *testing.T, out *sink) {
 				add("snref-diff", "", fmt.Sprintf("Codec.tla ok=%v, snref err=%v", v.OK, err))
 			}
 		}
+		v.Alt.Pkt.norm()
+		wrongOffset := o == oOK && v.Alt.OK && len(mismatch(v.Alt.Pkt, pkt)) == 0
 		switch {
 		case o == oPanic:
 			panics++
@@ -641,7 +649,11 @@ func runDgVec(t *testing.T, out *sink) {
 			accBoth++
 			v.Pkt.norm()
 			if mm := mismatch(*v.Pkt, pkt); len(mm) > 0 {
-				add("fields", mm[0], fmt.Sprintf("spec %+v real %+v", *v.Pkt, pkt))
+				if wrongOffset {
+					add("body-offset", "", fmt.Sprintf("spec %+v real %+v", *v.Pkt, pkt))
+				} else {
+					add("fields", mm[0], fmt.Sprintf("spec %+v real %+v", *v.Pkt, pkt))
+				}
 			} else if !repackOK(rp, ty, v.CB) {
 				add("repack", "", fmt.Sprintf("real re-encoding %v, expected body %v (%s)", rp, v.CB, note))
 			}
@@ -650,6 +662,8 @@ func runDgVec(t *testing.T, out *sink) {
 			dt, db, dok := splitHdr(v.D)
 			if dok && repackOK(rp, dt, db) {
 				add("accept-extra", v.Why, "")
+			} else if wrongOffset {
+				add("body-offset", "", fmt.Sprintf("real decoded %+v, re-encodes to %v", pkt, rp))
 			} else {
 				add("accept-nonlayout", v.Why, fmt.Sprintf("real decoded %+v, re-encodes to %v", pkt, rp))
 			}
